@@ -44,7 +44,7 @@ theorem rootView_regular (dims : Idx) (st : Int) : Regular (rootView dims st) :=
 
 theorem loopState_root : ∀ (dims : Idx),
     NdC02.loopState dims dims (uniform dims.length 1) (offsetsT dims) = some (product dims, false)
-  | [] => by simp [NdC02.loopState, product, uniform]
+  | [] => by simp [NdC02.loopState, product]
   | d :: ds => by
     rw [List.length_cons, uniform_succ, offsetsT_cons]
     simp only [NdC02.loopState, loopState_root ds]
@@ -131,7 +131,7 @@ theorem mustReshape_root {h : Heap α} {dims newShape : Idx} {sid : Nat} {base l
 /-- element access of a Go-backed root array inside its window -/
 theorem get_root {h : Heap α} {dims : Idx} {sid : Nat} {base len : Int} {s : List α} (hs : h[sid]? = some s)
     (idx : Idx) (hl : idx.length = dims.length) (h0 : 0 ≤ ravel idx dims) (h1 : ravel idx dims < len)
-    (hb : 0 ≤ base) {x : α} (hx : s[(base + ravel idx dims).toNat]? = some x) :
+    (_hb : 0 ≤ base) {x : α} (hx : s[(base + ravel idx dims).toNat]? = some x) :
     Nd.get h (rootArr dims sid base len) idx = .ok x := by
   unfold Nd.get
   simp only [rootArr, rootView_index' dims 0 idx hl, readAt, storeOf, hs, bind, Except.bind, pure, Except.pure,
@@ -173,21 +173,24 @@ theorem jsa_rank1 {h : Heap α} {sid : Nat} {s : List α} (hs : h[sid]? = some s
   apply List.ext_getElem (by simp; omega)
   intro i h1 h2
   simp only [List.length_map, List.length_range] at h1
-  simp only [List.getElem_map, List.getElem_range, List.getElem_take, List.getElem_drop, Int.toNat_natCast]
+  simp only [List.getElem_map, List.getElem_range, List.getElem_take, List.getElem_drop]
   rw [List.getD_eq_getElem?_getD, List.getElem?_eq_getElem (by omega)]
   rfl
 
 /-! ### `results.States` -/
 
+omit [JNum α] in
 theorem mapInsert_new (ks : List String) (vs : List (JVal α)) (k : String) (v : JVal α) (hk : k ∉ ks) :
     mapInsert ks vs k v = (ks ++ [k], vs ++ [v]) := by
   unfold mapInsert
   rw [List.idxOf?_eq_none_iff.mpr hk]
 
+omit [JNum α] in
 theorem fromStore_fresh (vals : List α) (dims : Idx) (hne : dims ≠ []) :
     fromStore ([vals] : Heap α) 0 dims = .ok (rootArr dims 0 0 vals.length) := by
   simp [fromStore, storeOf, root_eq dims 0 hne, rootArr, bind, Except.bind, pure, Except.pure]
 
+omit [JNum α] in
 theorem take_drop_succ' (s : List α) (i n : Nat) (hi : i < s.length) :
     (s.drop i).take (n + 1) = s[i] :: (s.drop (i + 1)).take n := by
   rw [List.drop_eq_getElem_cons hi, List.take_succ_cons]
@@ -274,6 +277,7 @@ theorem contiguous_rowView (nO T i : Nat) : (rowView nO T i).contiguous = .ok tr
   rw [hb]
   simp [rowView, NdC02.loopState]
 
+omit [JNum α] in
 /-- `outputArray.Slice([i,0],[1,T],[1,1]).MustReshape([T])`: the rank-1 root array on the window of row `i` -/
 theorem row_reshape {h : Heap α} {sid : Nat} {s : List α} (hs : h[sid]? = some s) (nO T i : Nat) (len : Int)
     (hrow : i * T + T ≤ s.length) :
@@ -305,6 +309,7 @@ theorem row_reshape {h : Heap α} {sid : Nat} {s : List α} (hs : h[sid]? = some
   simp only [hm, hc, hu, implOf, root_eq [(T : Int)] 0 (by simp), List.length_cons, List.length_nil]
   simp [rootArr]
 
+omit [JNum α] in
 theorem flatten_length_rect (T : Nat) : ∀ (outs : List (List α)), (∀ o ∈ outs, o.length = T) →
     outs.flatten.length = outs.length * T
   | [], _ => by simp
@@ -313,6 +318,7 @@ theorem flatten_length_rect (T : Nat) : ∀ (outs : List (List α)), (∀ o ∈ 
     simp only [List.flatten_cons, List.length_append, List.length_cons, this, h o (by simp)]
     rw [Nat.succ_mul]; omega
 
+omit [JNum α] in
 /-- row `i` of a rectangular block is the `i`-th window of `T` cells of its row-major flattening -/
 theorem flatten_row (T : Nat) : ∀ (outs : List (List α)), (∀ o ∈ outs, o.length = T) →
     ∀ (i : Nat) (hi : i < outs.length), (outs.flatten.drop (i * T)).take T = outs[i]
@@ -404,7 +410,7 @@ theorem jsa_rank2 {h : Heap α} {sid : Nat} {s : List α} (hs : h[sid]? = some s
   apply List.ext_getElem (by simp; omega)
   intro k h1 h2
   simp only [List.length_map, List.length_range] at h1
-  simp only [List.getElem_map, List.getElem_range, List.getElem_take, List.getElem_drop, Int.toNat_natCast]
+  simp only [List.getElem_map, List.getElem_range, List.getElem_take, List.getElem_drop]
   rw [List.getD_eq_getElem?_getD, List.getElem?_eq_getElem (by omega)]
   rfl
 
